@@ -300,19 +300,9 @@ pub fn show_ivs(ivs: &[Vec<u8>]) -> String {
 /// Algorithm 2.B table for the model: every (password, salt, udata) the code can hash for this
 /// encryption dictionary and these candidate passwords — computed by the reference.
 pub fn h2b_table(rev: i64, o: &[u8], u: &[u8], pws: &[Vec<u8>]) -> String {
-    if rev != 6 || o.len() != 48 || u.len() != 48 { return "0".into(); }
-    let mut rows = vec![];
-    let mut seen = std::collections::BTreeSet::new();
-    for pw in pws {
-        for pw in [pw.clone(), pw.iter().take(127).cloned().collect::<Vec<u8>>()] {
-            for (salt, ud) in [(&u[32..40], &[][..]), (&u[40..48], &[][..]), (&o[32..40], &u[..]), (&o[40..48], &u[..])] {
-                if !seen.insert((pw.clone(), salt.to_vec(), ud.to_vec())) { continue; }
-                let out = rf::alg2b(6, &pw, salt, ud);
-                rows.push(format!("{} {} {} {}", hex_tok(&pw), hex_tok(salt), hex_tok(ud), hex_tok(&out)));
-            }
-        }
-    }
-    format!("{} {}", rows.len(), rows.join(" ")).trim_end().to_string()
+    // Algorithm 2.B is now part of the Lean model itself: no results are shipped any more
+    let _ = (rev, o, u, pws);
+    "0".into()
 }
 
 /// the password bytes the real code feeds its algorithms (`PasswordAlgorithm::sanitize_password` is public)
@@ -321,7 +311,18 @@ pub fn sanitize(enc_doc: &Document, pw: &str) -> Option<Vec<u8>> {
     alg.sanitize_password(pw).ok()
 }
 
-pub struct Encrypted { pub state: EncryptionState, pub doc: Document, pub ivs: Vec<Vec<u8>>, pub owner_b: Vec<u8>, pub user_b: Vec<u8> }
+pub struct Encrypted { pub state: EncryptionState, pub doc: Document, pub ivs: Vec<Vec<u8>>, pub owner_b: Vec<u8>, pub user_b: Vec<u8>,
+    /// whether the hashing requests of this case (c5_mkstate / c5_decdoc) are sent to the model: always, except
+    /// for revision 6 beyond a per-run budget — the model runs the full Algorithm 2.B in Lean (about 0.2 s a hash)
+    pub full_model: bool }
+
+/// budget of revision-6 cases whose hashing requests go to the Lean model (all R2–R5 cases do)
+pub fn r6_model_budget(c: &mut Ctx, rev: i64, key: &str) -> bool {
+    if rev != 6 { return true; }
+    let used = *c.counters.get(key).unwrap_or(&0);
+    if used >= c.n(6, 40) { c.count(&format!("{}.skipped", key)); return false; }
+    c.count(key); true
+}
 
 /// real `try_from` + `encrypt`; records the `c5_mkstate` / `c5_encdoc` correspondences
 pub fn encrypt_real(c: &mut Ctx, cfg: &Config, orig: &Document) -> Result<Encrypted, String> {
@@ -348,10 +349,13 @@ pub fn encrypt_real(c: &mut Ctx, cfg: &Config, orig: &Document) -> Result<Encryp
         (vec![], state.user_value()[32..48].to_vec(), state.owner_value()[32..48].to_vec(), pr[12..16].to_vec())
     } else if rev >= 3 { (state.user_value()[16..32].to_vec(), vec![], vec![], vec![]) } else { (vec![], vec![], vec![], vec![]) };
     let tbl = h2b_table(rev, state.owner_value(), state.user_value(), &[owner_b.clone(), user_b.clone()]);
-    c.corr(format!("c5_mkstate {} {} {} {} {} {} {}", cfg.show(&owner_b, &user_b), hex_tok(&rf::file_id0(orig)),
-        hex_tok(&u_tail), hex_tok(&u_salts), hex_tok(&o_salts), hex_tok(&perms_rnd), tbl), format!("ok {}", show_state(&state)));
+    let full_model = r6_model_budget(c, rev, "r6.model_cases");
+    if full_model {
+        c.corr(format!("c5_mkstate {} {} {} {} {} {} {}", cfg.show(&owner_b, &user_b), hex_tok(&rf::file_id0(orig)),
+            hex_tok(&u_tail), hex_tok(&u_salts), hex_tok(&o_salts), hex_tok(&perms_rnd), tbl), format!("ok {}", show_state(&state)));
+    }
     c.corr(format!("c5_encdoc {} {} {}", show_state(&state), show_doc(orig), show_ivs(&ivs)), format!("ok {}", show_doc(&doc)));
-    Ok(Encrypted { state, doc, ivs, owner_b, user_b })
+    Ok(Encrypted { state, doc, ivs, owner_b, user_b, full_model })
 }
 
 /// real `decrypt(password)` on a clone; records the `c5_decdoc` correspondence (with the sanitised bytes)
@@ -371,10 +375,10 @@ pub fn decrypt_real2(c: &mut Ctx, e: &Encrypted, pw: &str, extra_tbl: &[Vec<u8>]
     let tbl = h2b_table(e.state.revision(), e.state.owner_value(), e.state.user_value(), &pws);
     let req = format!("c5_decdoc {} {} {}", show_doc(&e.doc), hex_tok(&pw_b), tbl);
     match res {
-        Ok(Ok(())) => { c.corr(req, format!("ok {}", show_doc(&d))); Ok(d) }
+        Ok(Ok(())) => { if e.full_model { c.corr(req, format!("ok {}", show_doc(&d))); } Ok(d) }
         Ok(Err(err)) => {
             let cls = err_class(&err);
-            c.corr(req, format!("err {}", cls));
+            if e.full_model { c.corr(req, format!("err {}", cls)); }
             if check_unchanged && show_doc(&d) != show_doc(&e.doc) {
                 c.oracle_fail("failed-decrypt-mutated", "decrypt returned an error but changed the document", json!({"password": pw, "error": cls}));
             }
